@@ -5,8 +5,10 @@ package main
 import (
 	"context"
 	"errors"
+	"strings"
 
 	"github.com/rpcpool/yellowstone-faithful/compactindexsized"
+	old_faithful_grpc "github.com/rpcpool/yellowstone-faithful/old-faithful-proto/old-faithful-grpc"
 )
 
 // C03.epochblock — the real (*Epoch).GetBlock over the keyless-index model: for every requested
@@ -18,7 +20,6 @@ func VerifC03EpochBlock() {
 	verifC03Install(e)
 	st := verifC03Stores[e]
 	q := verifU64("slot")
-	verifKnownFinding("C03-S1-getblock-no-slot-check", true)
 	block, c, err := e.GetBlock(WithSubrapghPrefetch(context.Background(), verifBool("prefetch")), q)
 	if err != nil {
 		// not-found must stay recognisable for the handlers
@@ -29,9 +30,7 @@ func VerifC03EpochBlock() {
 			}
 		}
 		verifAssert(!present, "C03.epochblock: error for a slot that is archived")
-		if !st.collided {
-			verifAssert(errors.Is(err, compactindexsized.ErrNotFound), "C03.epochblock: absent slot not reported as ErrNotFound")
-		}
+		verifAssert(errors.Is(err, compactindexsized.ErrNotFound), "C03.epochblock: absent slot not reported as ErrNotFound")
 	} else {
 		verifAssert(uint64(block.Slot) == q, "C03.epochblock: GetBlock returned the block of a different slot")
 		ok := false
@@ -41,6 +40,57 @@ func VerifC03EpochBlock() {
 			}
 		}
 		verifAssert(ok, "C03.epochblock: returned CID is not the CID of the requested slot's block")
+	}
+	verifReach("end")
+}
+
+// verifC03Multi loads `ne` epochs (numbers 4, 6, 7: epoch 5 is a gap) with up to maxblocks blocks and
+// maxtxs transactions each.
+func verifC03Multi(ne, nBlocks, nTxs int) (*MultiEpoch, []*Epoch) {
+	nums := []uint64{6, 4, 7}
+	multi := NewMultiEpoch(&Options{EpochSearchConcurrency: verifParam("concurrency", 0)})
+	var eps []*Epoch
+	for i := 0; i < ne; i++ {
+		e := verifC03NewEpoch(nums[i], nBlocks, nTxs)
+		multi.epochs[nums[i]] = e
+		eps = append(eps, e)
+	}
+	verifC03Install(eps...)
+	return multi, eps
+}
+
+// verifC03Archived: branch-free "slot q is a block of one of the loaded epochs".
+func verifC03Archived(eps []*Epoch, q uint64) uint64 {
+	a := uint64(0)
+	for _, e := range eps {
+		for _, o := range verifC03Stores[e].objs {
+			if o.kind == verifC03KindBlock {
+				a |= verifIteU64(o.slot == q, 1, 0)
+			}
+		}
+	}
+	return a
+}
+
+// C03.grpcblock — the real gRPC MultiEpoch.GetBlock (epoch routing, Epoch.GetBlock, response
+// assembly, parent lookup) with one or three epochs loaded: the response is the block of the
+// requested slot, or the error is NotFound (slot skipped / epoch not available) when the slot is not
+// archived.
+func VerifC03GrpcBlock() {
+	ne := verifParam("epochs", 1)
+	nb := 1 + verifChoice("nblocks", verifParam("maxblocks", 2))
+	multi, eps := verifC03Multi(ne, nb, 0)
+	q := verifU64("slot")
+	resp, err := multi.GetBlock(context.Background(), &old_faithful_grpc.BlockRequest{Slot: q})
+	archived := verifC03Archived(eps, q)
+	if err != nil {
+		if archived == 0 {
+			verifAssert(strings.Contains(err.Error(), "code = NotFound"), "C03.grpcblock: slot that is not archived is not answered with NotFound")
+		}
+	} else {
+		verifAssert(resp != nil, "C03.grpcblock: nil response without error")
+		verifAssert(resp.Slot == q, "C03.grpcblock: response carries the block of a different slot")
+		verifAssert(archived == 1, "C03.grpcblock: a block is returned for a slot that is not archived")
 	}
 	verifReach("end")
 }
